@@ -264,8 +264,8 @@ func Main(t *testing.T) {
 	go func() {
 		for {
 			time.Sleep(5 * time.Second)
-			if lastProgress.since() > 120*time.Second {
-				fmt.Fprintf(realStdout, "HARNESS-ERROR watchdog: run %d conf %s of %s made no progress for 120s real time\n", curRun, curConf, name)
+			if lastProgress.since() > 600*time.Second {
+				fmt.Fprintf(realStdout, "HARNESS-ERROR watchdog: run %d conf %s of %s made no progress for 600s real time\n", curRun, curConf, name)
 				os.Exit(3)
 			}
 		}
